@@ -1,4 +1,97 @@
-// slice `sched_ctor`: the constructors of Schedule (solution/src/schedule.rs) -- draft header, see below
+// slice `sched_ctor`: the constructors of Schedule (solution/src/schedule.rs), verbatim bodies: Schedule::compute_unserved_passengers,
+// Schedule::empty, Schedule::from_tours (plus Schedule::new, Network::coverable_nodes / vehicle_types / config /
+// number_of_service_nodes, TrainFormation::empty).  They are the BASE CASE of the schedule invariant `sv_ok`
+// (env/spawn_vehicle_shim.vs) that the modification slices take as precondition.
+//   C09  "cached aggregates equal recomputation": compute_unserved_passengers IS the recomputation: its result is the
+//        component-wise sum, over all service trips of the network (all_service_seq: every trip exactly once), of
+//        compute_unserved_passengers_at_node(network, trip, formation of the trip) (unserved_from_scratch / un_total /
+//        unserved_at).  Schedule::empty: costs = number_of_service_nodes * staff costs (no tour yet), maintenance violation
+//        0 = the sum over the types' transitions, unserved passengers = the from-scratch value = the whole demand of the
+//        instance (demand_total).  from_tours: unserved passengers still the from-scratch value, costs = staff term + the
+//        costs of the tours of the vehicles 0, 1, …; depot usage exact (clause of sv_ok).
+//   C10  "structural invariants for every reachable schedule", base case: Schedule::empty has no vehicles, tours, dummies,
+//        counter 0, an EMPTY formation for exactly the coverable nodes (service trips and maintenance slots), an empty id
+//        list and the transition of no vehicles for exactly the listed vehicle types, empty depot usage (is_empty_schedule);
+//        it satisfies sv_ids_ok, listings_match, usage_exact and -- given instance validity (instance_ok) -- sv_formations_ok,
+//        transitions_ok and sv_ok as a whole.  from_tours re-establishes sv_ok and listings_match after every spawn from the
+//        postcondition of spawn_vehicle_for_path (lemma_ft_step: invariant preservation for the spawn, which
+//        slices/spawn_vehicle.vs lists as not covered; needs the stronger loop invariant ft_inv: exact unserved passengers,
+//        small formations, |vehicles| = counter) and returns a schedule that satisfies them.
+//   C14 / C13  "every flow unit is decoded into exactly one tour": from_tours returns Ok; the i-th given tour (map entry by
+//        map entry, within an entry in the order of the Vec) is the tour of the vehicle with id i, a vehicle of the given
+//        type: the given nodes in order with depots at the ends (depots_added), no activity lost, only compatible nodes, a
+//        valid real tour with exact caches (vehicle_of_job); there are no other vehicles and no dummies; the number of
+//        vehicles is the number of given tours (from_tours_post, tours_total).
+//   C06  `result.unwrap()` in from_tours panics if a spawn fails.  The contract of spawn_vehicle_for_path says when the result
+//        is Err for sure (incompatible node, all 2^16 ids used) but NOT when it is Ok, so no condition on the input tours can
+//        be shown sufficient: the unwrap is covered by the STATED precondition every_spawn_succeeds (see PRECONDITIONS).
+//        The other panics / overflows (`train_formations.get(&node).unwrap()`, the u32 additions of the fold, the u64
+//        product of the staff term) are excluded under the stated preconditions.
+//
+// ASSUMPTIONS introduced / used by this slice:
+//   A-iter   NEW (env/sched_ctor_shim.vs): SeqIter::fold (external_body, std semantics: left fold in order -- the result is
+//            related to `init` by a chain of calls of the closure (fold_rel); the closure must be callable on every
+//            accumulator value that can arise.  For the component-wise u32 addition this is PROVED (lemma_fold_adds_pairs)
+//            from the stated precondition that the totals fit into u32: no partial sum overflows);
+//            Network::all_service_nodes as SeqIter stub: yields all_service_seq(network) (uninterpreted order);
+//            stubs with the text of slices/json_writer.vs: VehicleTypes::iter (= ids_sorted), Network::maintenance_nodes
+//            (= the list); env/seqiter.vs (map, collect, chain, `for` over a SeqIter); vstd: `for` over a Vec by value
+//   A-index  NEW: service_enum_ok -- all_service_seq(network) lists every service trip of the network exactly once and nothing
+//            else (how Network::new fills `nodes_sorted_by_start`; postcondition of the all_service_nodes stub)
+//   A-im     env/im_shim.vs (im::HashMap new / get / insert), env/schedule_shim.vs (opaque im::HashSet); NEW: `collect()` into an
+//            im::HashMap (imhm_source / axiom_imhm_collect: the keys of the result are exactly the first components of the
+//            pairs, every key maps to the second component of some pair with that key; text as for std's HashMap in
+//            env/network_new_shim.vs)
+//   A-map    NEW: `StdHashMap` (the name under which schedule.rs imports std's HashMap) is an opaque type whose `for` loop
+//            (IntoIterator, external_body) visits `entries(map)`: every entry exactly once, in some order (entries_ok)
+//   A-stub   NEW: Transition::new_fast (not under contract in any slice): for an EMPTY vehicle list the result has no cycle,
+//            both totals 0, an empty lookup and no reusable empty cycle (empty_transition).  Justification: in
+//            Transition::one_cluster_per_maintenance (solution/src/transition.rs) neither loop runs for `vehicles == []`,
+//            `sorted_clusters` stays empty, so `cycles` and `cycle_lookup` are empty, the two totals keep their initial 0 and
+//            `empty_cycles: Vec::new()`.  Nothing is assumed for a non-empty list.
+//   R7a stubs (verified elsewhere with the SAME contract text; tools/stub_sync.py reports no difference):
+//            Schedule::compute_unserved_passengers_at_node (admission), Schedule::spawn_vehicle_for_path (spawn_vehicle);
+//            env/time_ops.vs, env/model_fns.vs, env/dist_ops.vs included trusted (slices time / network / tour_ctor)
+//   A-derive / A-std / A-fmt of the included shims (env/spawn_vehicle_shim.vs etc.: only their spec vocabulary and lemmas are used
+//            here: sv_ok and its parts, spawned / listed / formations_follow / transitions_follow, usage_exact, un_sum);
+//            vstd: Arc::clone, Vec::new, Result::unwrap; plus env/broadcast_model.vs (key model of the index types).
+//   No shim had to be copied: env/{im_shim, transition_spec, schedule_shim, sched_guard_shim, spawn_vehicle_shim}.vs are
+//   included as they are, env/sched_ctor_shim.vs only adds definitions.
+//
+// PRECONDITIONS the caller must guarantee:
+//   compute_unserved_passengers: every service trip has a formation entry (C10) whose u32 capacity / seat sums fit; the two
+//     totals fit into u32 (the fold adds in u32: debug builds panic, release builds wrap otherwise).
+//   empty: Network::wf; maintenance_listed (A-index: every maintenance slot of the network is in `maintenance_nodes`);
+//     number_of_service_nodes * staff costs <= 2^61 (u64 product; the bound sv_ok needs); the whole demand (passengers and
+//     seated passengers summed over all service trips) fits into u32.  The conjuncts sv_formations_ok / transitions_ok / sv_ok
+//     are claimed under instance_ok: depot_lists_ok (A-index for the depot node lists), the listed vehicle types are pairwise
+//     distinct, every service trip's vehicle type is a vehicle type of the network (A-types).
+//   from_tours: the above with the staff term <= 2^60; instance_ok; caps_ok (A-cap, magnitude: capacity and seats of a vehicle
+//     type <= 2^15 - 1, so that the u32 sums of a formation of up to 2^16 + 1 vehicles fit); for every given tour (job_ok): its
+//     vehicle type is a listed type of the network stored under its own index (type_known), the tour is not empty, its
+//     nodes are nodes of the network, A-len (tour_len_ok), A-counter (path_counter_ok, as spawn_counter_ok), A-cost
+//     (path_cost_ok, magnitude: whatever tour the path becomes costs at most 2^44, so that 2^16 tours stay below 2^61);
+//   * every_spawn_succeeds (C06): for every schedule s in a state from_tours can be in after the first n given tours (ft_inv)
+//     and every possible result r of s.spawn_vehicle_for_path(type of tour n, tour n), r is Ok.  "Possible result" is
+//     `call_ensures(Schedule::spawn_vehicle_for_path, (&s, vt, path), r)`, the relation Verus provides between the arguments
+//     and the result of an actual call (it implies the ensures clause, not conversely; a call site learns it for its result).
+//     This is a statement about the BEHAVIOUR of spawn_vehicle_for_path, not a checkable condition on the input, and it
+//     quantifies over all states that satisfy ft_inv, not only over the one the execution reaches (sufficient, not
+//     necessary).  Necessary conditions that DO follow from the contract: every node of every given tour is compatible with
+//     the tour's vehicle type and there are at most 2^16 given tours -- otherwise from_tours panics for sure.
+//
+// NOT covered:
+//   * WHEN spawn_vehicle_for_path succeeds (see above) and hence that MinCostFlowSolver::solve, the only caller of from_tours,
+//     establishes every_spawn_succeeds; that the callers establish the other preconditions (magnitudes, A-index);
+//   * which depots are put at the ends of a given tour (only depots_added), the order in which a std HashMap is visited (the
+//     ids 0, 1, 2, … follow `entries(tours)`, which std leaves unspecified: the numbering of the vehicles of different types
+//     is not determined by the input);
+//   * that `number_of_service_nodes` is the number of service trips of the network (A-index / A-lib of slices/network_new.vs):
+//     the staff term is stated with the field the code reads, as Schedule::verify_consistency does;
+//   * Transition::new_fast for a non-empty vehicle list; the error value of from_tours (it never returns Err: it panics
+//     instead -- see the candidate finding in the report of this slice);
+//   * C10 clauses that sv_ok does not contain ("a vehicle is in the formation of a node exactly if its tour contains the node",
+//     formation / depot limits for the result of from_tours beyond grown_within_limits of each spawn).
 #![feature(allocator_api)]
 use vstd::prelude::*;
 use std::ops::Add;
@@ -32,7 +125,7 @@ use super::*;
 use vstd::prelude::*;
 use self::im::HashMap;
 use self::im_set::HashSet;
-use std::collections::HashMap as StdHashMap;
+use vstd::std_specs::iter::IteratorSpec;
 //@include env/im_shim.vs
 
 //@item solution/src/transition.rs type CycleIdx : plain
@@ -268,6 +361,125 @@ impl Clone for TransitionCycle {
                     && viol_sum(s.next_period_transitions@, sched_types(&s)) == 0 by {
                 lemma_empty_invariants(&s);
             }
+        }
+//@end
+
+// ---- (3) a schedule from given tours ---------------------------------------------------------------------------
+// verified in slice spawn_vehicle; contract text copied from there
+//@item solution/src/schedule/modifications.rs Schedule::spawn_vehicle_for_path : trusted
+//@retname r
+//@sig
+    requires
+        self.sv_ok(),
+        self.type_known(vehicle_type_idx),
+        // `*nodes.first().unwrap()`; the nodes of the path are nodes of the network (`self.network.node(..)`); A-len
+        path_as_vec@.len() >= 1, all_in_net(&self.network, path_as_vec@), tour_len_ok(path_as_vec@),
+        // A-counter (magnitude)
+        self.spawn_counter_ok(path_as_vec@),
+    ensures
+        // C01 / C10 "a vehicle only serves service trips of the vehicle's type": "If some node on the path is not
+        // compatible with the vehicle type an error is returned", and every node of the new vehicle's tour is compatible
+        !all_compatible(&self.network, path_as_vec@, vehicle_type_idx) ==> r is Err, // @obl C01.spawn_vehicle.only_compatible_nodes
+        // D11: ids are 16 bit and never reused: when all 2^16 have been handed out the spawn is refused (the unfixed code
+        // wrapped around and overwrote the vehicle stored under id 0)
+        self.vehicle_counter > 0xffff ==> r is Err, // @obl C13.spawn_vehicle.refuses_instead_of_reusing_an_id
+        r is Ok ==> all_compatible(&self.network, r->Ok_0.0.tours@[r->Ok_0.1].nodes@, vehicle_type_idx), // @obl C01.spawn_vehicle.only_compatible_nodes
+        // C13 "documented effect and nothing else"
+        r is Ok ==> self.spawned(vehicle_type_idx, path_as_vec@, &r->Ok_0.0, r->Ok_0.1), // @obl C13.spawn_vehicle.adds_exactly_one_vehicle_with_the_given_path
+        // ... no activity of the path is lost, unless the path starts with a depot and ends with an activity (see "NOT
+        // covered / finding" in the header)
+        r is Ok ==> activities_kept(&self.network, path_as_vec@, r->Ok_0.0.tours@[r->Ok_0.1].nodes@), // @obl C13.spawn_vehicle.adds_exactly_one_vehicle_with_the_given_path
+        r is Ok ==> self.listed(vehicle_type_idx, &r->Ok_0.0, r->Ok_0.1), // @obl C13.spawn_vehicle.adds_exactly_one_vehicle_with_the_given_path
+        // C10 "listings sorted and match": if every type's id list held exactly the vehicles of the type, it still does
+        r is Ok && self.listings_match() ==> r->Ok_0.0.listings_match(), // @obl C10.spawn_vehicle.listings_still_match
+        r is Ok ==> self.formations_follow(&r->Ok_0.0, r->Ok_0.1), // @obl C13.spawn_vehicle.formations_follow_update_train_formation
+        // C09 "cached aggregates equal recomputation"
+        r is Ok ==> r->Ok_0.0.costs == self.costs + r->Ok_0.0.tours@[r->Ok_0.1].costs, // @obl C09.spawn_vehicle.costs_plus_tour_costs
+        r is Ok ==> usage_exact_for(r->Ok_0.0.depot_usage@, &self.network, r->Ok_0.0.vehicles@, r->Ok_0.0.tours@, r->Ok_0.1)
+            && usage_same_except(self.depot_usage@, r->Ok_0.0.depot_usage@, r->Ok_0.1)
+            && usage_exact(r->Ok_0.0.depot_usage@, &self.network, r->Ok_0.0.vehicles@, r->Ok_0.0.tours@), // @obl C09.spawn_vehicle.depot_usage_exact
+        // C15 / C10 / C09: rotation cycles and maintenance violation
+        r is Ok ==> self.transitions_follow(vehicle_type_idx, &r->Ok_0.0), // @obl C10.spawn_vehicle.transitions_follow_new_tours
+//@end
+//@item solution/src/schedule.rs Schedule::from_tours
+//@retname r
+//@sig
+    requires
+        // the preconditions of Schedule::empty
+        network.wf(), maintenance_listed(&network),
+        network.number_of_service_nodes * network.config.costs.staff <= STAFF_COST_MAX,
+        demand_total(&network, 0) <= u32::MAX, demand_total(&network, 1) <= u32::MAX,
+        // instance validity as far as the schedule invariant sv_ok needs it; A-cap (magnitude)
+        instance_ok(&network), caps_ok(&network),
+        // the given tours: a listed vehicle type, not empty, nodes of the network, A-len, A-counter, A-cost
+        forall|n: int| 0 <= n < all_jobs(entries(tours)).len() ==> job_ok(&network, #[trigger] all_jobs(entries(tours))[n]),
+        // C06: `result.unwrap()` panics if a spawn fails
+        every_spawn_succeeds(network, all_jobs(entries(tours))), // @obl C06.from_tours.unwrap_needs_every_spawn_to_succeed
+    ensures
+        r is Ok,
+        // A-map: `entries(tours)` is the order in which the loop visits the map: every (type, tours) entry exactly once
+        entries_ok(tours),
+        // C14 "every flow unit is decoded into exactly one tour" / C13: the i-th given tour (entry by entry, within an entry
+        // in the order of the Vec) is the tour of the vehicle with id i, a vehicle of the given type: the given nodes in
+        // order with depots at the ends, no activity lost (vehicle_of_job); there are no other vehicles and no dummies:
+        // the number of vehicles is the number of given tours
+        from_tours_post(&r->Ok_0, network, all_jobs(entries(tours))), // @obl C14.from_tours.one_vehicle_per_given_tour
+        all_jobs(entries(tours)).len() == tours_total(entries(tours), entries(tours).len() as int), // @obl C14.from_tours.one_vehicle_per_given_tour
+        // C10: the result satisfies the schedule invariants the modifications take as precondition
+        r->Ok_0.sv_ok() && r->Ok_0.listings_match(), // @obl C10.from_tours.satisfies_the_schedule_invariants
+        // C09: the unserved passengers have their from-scratch value
+        r->Ok_0.unserved_c(0) == unserved_from_scratch(&network, r->Ok_0.train_formations@, 0)
+            && r->Ok_0.unserved_c(1) == unserved_from_scratch(&network, r->Ok_0.train_formations@, 1), // @obl C09.from_tours.unserved_passengers_are_the_from_scratch_value
+        // C09: the costs are the staff costs of all service trips plus the costs of the tours of the vehicles 0, 1, …
+        r->Ok_0.costs == network.number_of_service_nodes * network.config.costs.staff
+            + pre_costs(r->Ok_0.tours@, all_ids(), all_jobs(entries(tours)).len() as int), // @obl C09.from_tours.costs_are_staff_costs_plus_tour_costs
+        // (the loop invariant, opaque: the above plus what is needed to re-establish sv_ok after the next spawn)
+        r->Ok_0.ft_inv(network, all_jobs(entries(tours))),
+//@first
+        let ghost net = network;
+        let ghost es = entries(tours);
+        let ghost jobs = all_jobs(es);
+//@after "let mut schedule"
+        proof { lemma_ft_init(&schedule, net); }
+//@loop "for (vehicle_type, tours) in"
+            invariant
+                it.snapshot@@ == es, 0 <= it.index@ <= es.len(), jobs == all_jobs(es),
+                schedule.ft_inv(net, jobs_upto(es, it.index@ as int)), // @obl C14.from_tours.one_vehicle_per_given_tour
+                forall|n: int| 0 <= n < jobs.len() ==> job_ok(&net, #[trigger] jobs[n]),
+                every_spawn_succeeds(net, jobs),
+//@before "for tour in"
+            let ghost oi = it.index@ as int;
+            let ghost ts = tours@;
+            proof { assert(jobs_upto(es, oi) + jobs_of_entry(es[oi], 0) =~= jobs_upto(es, oi)); }
+//@loop "for tour in"
+                invariant
+                    it.snapshot@.remaining() == ts, ts == es[oi].1@, vehicle_type == es[oi].0, 0 <= oi < es.len(),
+                    0 <= it.index@ <= ts.len(), jobs == all_jobs(es),
+                    // every tour given so far is the tour of exactly one vehicle, ids in order of creation (ft_inv, vehicle_of_job)
+                    schedule.ft_inv(net, jobs_upto(es, oi) + jobs_of_entry(es[oi], it.index@ as int)), // @obl C14.from_tours.one_vehicle_per_given_tour
+                    forall|n: int| 0 <= n < jobs.len() ==> job_ok(&net, #[trigger] jobs[n]),
+                    every_spawn_succeeds(net, jobs),
+//@before "let result"
+                let ghost done = jobs_upto(es, oi) + jobs_of_entry(es[oi], it.index@ as int);
+                let ghost s0 = schedule;
+                let ghost job: JobV = (vehicle_type, tour);
+                proof {
+                    lemma_jobs_prefix(es, oi, it.index@ as int, es.len() as int);
+                    assert(jobs[done.len() as int] == job);
+                    lemma_ft_call(&schedule, net, done, job);
+                }
+//@after "let result"
+                proof {
+                    // C06: the spawn succeeds (stated precondition)
+                    assert(call_ensures(Schedule::spawn_vehicle_for_path, (&s0, jobs[done.len() as int].0, jobs[done.len() as int].1), result));
+                    assert(result is Ok); // @obl C06.from_tours.unwrap_needs_every_spawn_to_succeed
+                    lemma_ft_step(&s0, &result->Ok_0.0, net, done, job, result->Ok_0.1); // @obl C14.from_tours.one_vehicle_per_given_tour
+                    assert(done.push(job) =~= jobs_upto(es, oi) + jobs_of_entry(es[oi], it.index@ + 1));
+                }
+//@before "Ok(schedule)"
+        proof {
+            lemma_ft_post(&schedule, net, jobs);
+            lemma_jobs_len(es, es.len() as int);
         }
 //@end
 
